@@ -441,6 +441,9 @@ class Shadow(object):
         self.dt = {k: v.dtype.char for k, v in f.variables.items()}
         self.masked = {k: isinstance(v, np.ma.MaskedArray)
                        for k, v in f.variables.items()}
+        # a variable naming one dimension twice (possible through
+        # insertDimension) is outside what the string forms are written for
+        self.dupdims = any(len(set(d)) != len(d) for d in self.vars.values())
 
 
 def rsel(rnd, n, kinds=('int', 'slice', 'list')):
@@ -503,7 +506,7 @@ def _gen_step(rnd, sh, src, shadows, focus=None, strict=False):
             # (an empty selection is not what the form is for; the helpers
             # copy through Pseudo2NetCDF, which maps booleans - results of
             # comparisons - to a netCDF integer type by design)
-            if nonempty and '?' not in sh.dt.values():
+            if nonempty and '?' not in sh.dt.values() and not sh.dupdims:
                 a['via'] = 'slice_dim'
     elif act == 'apply':
         nd = rnd.randint(1, min(3, len(dims)))
@@ -529,7 +532,7 @@ def _gen_step(rnd, sh, src, shadows, focus=None, strict=False):
         a['funcs'] = fs
         # the string forms reduce_dim / convolve_dim of a single function
         if len(fs) == 1 and rnd.random() < 0.35 and \
-                '?' not in sh.dt.values():
+                '?' not in sh.dt.values() and not sh.dupdims:
             if fs[0]['kind'] == 'reducer':
                 a['via'] = 'reduce_dim'
             elif fs[0]['f'] in CONVDEFS:
